@@ -94,6 +94,13 @@ Proof. intros r i H; exact H. Qed.
 Definition result_entries (r : ledger_result) : list parsed_entry :=
   match r with LOk es | LErr es _ => es | _ => [] end.
 
+(* every byte of the error span lies on the line of the error offset: the span is one
+   character, and only its first byte can be a line feed (then it is the whole character) *)
+Definition span_one_line (rest : list N) (sp : span) : Prop :=
+  forall k, fst sp <= k -> k < snd sp ->
+    count_nl (firstn (N.to_nat k) (utf8_encode rest)) =
+    count_nl (firstn (N.to_nat (fst sp)) (utf8_encode rest)).
+
 Definition error_ok (s : list N) (r : ledger_result) : Prop :=
   match r with
   | LErr _ e =>
@@ -101,9 +108,135 @@ Definition error_ok (s : list N) (r : ledger_result) : Prop :=
         pe_text_start e = utf8_len pre /\
         pe_line_start e = 1 + count_lf pre /\
         fst (pe_span e) <= snd (pe_span e) /\
-        snd (pe_span e) <= utf8_len rest
+        snd (pe_span e) <= utf8_len rest /\
+        span_one_line rest (pe_span e)
   | _ => True
   end.
+
+
+(* ---- the error span stays on the line where parsing stopped ---- *)
+Lemma skipn_encode_prefix : forall pre rest,
+  skipn (N.to_nat (utf8_len pre)) (utf8_encode (pre ++ rest)) = utf8_encode rest.
+Proof.
+  intros. rewrite utf8_encode_app. rewrite <- blen_utf8_encode. unfold blen.
+  rewrite Nat2N.id. rewrite skipn_app, skipn_all, Nat.sub_diag. reflexivity.
+Qed.
+
+Definition nl_at (bs : list N) (j : nat) : N :=
+  match nth_error bs j with Some b => if b =? 10 then 1 else 0 | None => 0 end.
+
+Lemma count_nl_firstn_S : forall bs j,
+  count_nl (firstn (S j) bs) = count_nl (firstn j bs) + nl_at bs j.
+Proof.
+  unfold nl_at. induction bs as [| b r IH]; intros j.
+  - destruct j; reflexivity.
+  - destruct j as [| j'].
+    + cbn [firstn count_nl nth_error]. lia.
+    + change (firstn (S (S j')) (b :: r)) with (b :: firstn (S j') r).
+      change (firstn (S j') (b :: r)) with (b :: firstn j' r).
+      cbn [count_nl nth_error]. rewrite IH. lia.
+Qed.
+
+Lemma count_nl_firstn_const : forall bs a d,
+  (forall j, (a <= j < a + d)%nat -> nl_at bs j = 0) ->
+  count_nl (firstn (a + d) bs) = count_nl (firstn a bs).
+Proof.
+  intros bs a. induction d as [| d IH]; intros H.
+  - rewrite Nat.add_0_r. reflexivity.
+  - rewrite Nat.add_succ_r, count_nl_firstn_S, IH, H; [lia | lia |].
+    intros j Hj. apply H. lia.
+Qed.
+
+Lemma find_boundary_between : forall n bs e0 x,
+  find_boundary n bs e0 = Some x -> forall y, e0 <= y -> y < x -> is_char_boundary bs y = false.
+Proof.
+  induction n; simpl; intros bs e0 x Hx y H1 H2; [discriminate |].
+  destruct (is_char_boundary bs e0) eqn:E.
+  - inversion Hx; subst. lia.
+  - destruct (N.eq_dec y e0) as [-> | Hne]; [exact E |].
+    apply (IHn bs (e0 + 1) x Hx); lia.
+Qed.
+
+(* a position that is not a character boundary holds a continuation byte (or lies beyond the end) *)
+Lemma not_boundary_byte : forall bs y, is_char_boundary bs y = false ->
+  match nth_error bs (N.to_nat y) with Some b => 128 <= b /\ b < 192 | None => y <> blen bs end.
+Proof.
+  intros bs y H. unfold is_char_boundary in H.
+  destruct (y =? 0); [discriminate |].
+  destruct (nth_error bs (N.to_nat y)) as [b |].
+  - apply Bool.orb_false_iff in H. destruct H as [H1 H2].
+    apply N.ltb_ge in H1. apply N.leb_gt in H2. split; assumption.
+  - apply N.eqb_neq in H. exact H.
+Qed.
+
+(* the first byte of a character's encoding is an ASCII byte that is the whole encoding, or a lead byte *)
+Lemma encode1_head : forall c, exists b l, utf8_encode1 c = b :: l /\ ((b < 128 /\ l = []) \/ 192 <= b).
+Proof.
+  intros c. unfold utf8_encode1.
+  destruct (N.ltb_spec c 128); [exists c, []; split; [reflexivity | left; split; [assumption | reflexivity]] |].
+  destruct (N.ltb_spec c 2048); [| destruct (N.ltb_spec c 65536)];
+    eexists; eexists; (split; [reflexivity | right; eapply N.le_trans; [| apply N.le_add_r]; lia]).
+Qed.
+
+(* if the byte after the start of a character is a continuation byte, the character is not ASCII:
+   its first byte is not a line feed *)
+Lemma lead_not_lf : forall p stopped b1,
+  nth_error (utf8_encode p ++ utf8_encode stopped) (S (length (utf8_encode p))) = Some b1 ->
+  128 <= b1 -> b1 < 192 ->
+  nl_at (utf8_encode p ++ utf8_encode stopped) (length (utf8_encode p)) = 0.
+Proof.
+  intros p stopped b1 H L1 L2. unfold nl_at.
+  rewrite nth_error_app2 in * by lia.
+  rewrite Nat.sub_diag. replace (S (length (utf8_encode p)) - length (utf8_encode p))%nat with 1%nat in H by lia.
+  destruct stopped as [| c tl]; [discriminate |].
+  change (utf8_encode (c :: tl)) with (utf8_encode1 c ++ utf8_encode tl) in *.
+  destruct (encode1_head c) as (b & l & E & [[Hb Hl] | Hb]); rewrite E in *.
+  - subst l. cbn [app nth_error] in H.
+    destruct tl as [| c2 tl2]; [discriminate |].
+    change (utf8_encode (c2 :: tl2)) with (utf8_encode1 c2 ++ utf8_encode tl2) in H.
+    destruct (encode1_head c2) as (b2 & l2 & E2 & [[Hb2 _] | Hb2]); rewrite E2 in H;
+      cbn [app nth_error] in H; inversion H; subst; lia.
+  - cbn [app nth_error]. destruct (N.eqb_spec b 10); [lia | reflexivity].
+Qed.
+
+Lemma parse_error_new_one_line : forall s pre rest stopped cut lbl e,
+  s = pre ++ rest -> suffix stopped rest ->
+  parse_error_new (utf8_encode s) (utf8_len s) rest stopped cut lbl = Some e ->
+  span_one_line rest (pe_span e).
+Proof.
+  intros s pre rest stopped cut lbl e -> [p Hp] H. unfold parse_error_new in H.
+  rewrite utf8_len_app in H.
+  replace (utf8_len pre + utf8_len rest - utf8_len rest) with (utf8_len pre) in H by lia.
+  rewrite line_of_prefix, skipn_encode_prefix in H.
+  set (offset := utf8_len rest - utf8_len stopped) in *.
+  assert (Hoff : offset = N.of_nat (length (utf8_encode p))).
+  { unfold offset. rewrite Hp, utf8_len_app. fold (blen (utf8_encode p)). rewrite blen_utf8_encode. lia. }
+  assert (Henc : utf8_encode rest = utf8_encode p ++ utf8_encode stopped) by (rewrite Hp; apply utf8_encode_app).
+  destruct (find_boundary (N.to_nat (blen (utf8_encode rest) - offset)) (utf8_encode rest) (offset + 1)) as [x |] eqn:E;
+    inversion H; subst e; unfold span_one_line; cbn [pe_span fst snd]; intros k K1 K2; [| lia].
+  pose proof (find_boundary_between _ _ _ _ E) as NB.
+  replace (N.to_nat k) with (N.to_nat offset + (N.to_nat k - N.to_nat offset))%nat by lia.
+  apply count_nl_firstn_const. intros j Hj.
+  destruct (Nat.eq_dec j (N.to_nat offset)) as [-> | Hne].
+  - (* the first byte of the span, when the span is longer than one byte *)
+    assert (B1 : is_char_boundary (utf8_encode rest) (offset + 1) = false) by (apply NB; lia).
+    apply not_boundary_byte in B1.
+    replace (N.to_nat (offset + 1)) with (S (length (utf8_encode p))) in B1 by lia.
+    replace (N.to_nat offset) with (length (utf8_encode p)) by lia.
+    rewrite Henc in *.
+    destruct (nth_error (utf8_encode p ++ utf8_encode stopped) (S (length (utf8_encode p)))) as [b1 |] eqn:E1.
+    + destruct B1. eapply lead_not_lf; eassumption.
+    + unfold nl_at. apply nth_error_None in E1.
+      destruct (nth_error (utf8_encode p ++ utf8_encode stopped) (length (utf8_encode p))) as [b0 |] eqn:E0; [| reflexivity].
+      exfalso. assert (length (utf8_encode p) < length (utf8_encode p ++ utf8_encode stopped))%nat
+        by (apply nth_error_Some; congruence).
+      apply B1. unfold blen. lia.
+  - (* a later byte: a continuation byte *)
+    assert (B : is_char_boundary (utf8_encode rest) (N.of_nat j) = false) by (apply NB; lia).
+    apply not_boundary_byte in B. rewrite Nat2N.id in B. unfold nl_at.
+    destruct (nth_error (utf8_encode rest) j) as [b |]; [| reflexivity].
+    destruct B. destruct (N.eqb_spec b 10); [lia | reflexivity].
+Qed.
 
 Lemma parse_error_new_ok : forall s pre rest stopped cut lbl e,
   s = pre ++ rest -> suffix stopped rest ->
@@ -147,7 +280,9 @@ Proof.
   destruct (vertical_space (length s) i) as [u r | c l st | |]; try contradiction.
   2: { destruct (parse_error_new (utf8_encode s) (utf8_len s) i st c l) as [e |] eqn:E; simpl.
        - split; [apply Forall_rev; assumption |].
-         destruct (parse_error_new_ok s pre0 i st c l e Hpre0 Hv E) as (A & B & C & D). eauto 10.
+         destruct (parse_error_new_ok s pre0 i st c l e Hpre0 Hv E) as (A & B & C & D).
+         pose proof (parse_error_new_one_line s pre0 i st c l e Hpre0 Hv E) as F.
+         exact (ex_intro _ pre0 (ex_intro _ i (conj Hpre0 (conj A (conj B (conj C (conj D F))))))).
        - split; [constructor | exact I]. }
   destruct Hv as [Hr _].
   destruct r as [| c0 r0]; [simpl; split; [apply Forall_rev; assumption | exact I] |].
@@ -159,7 +294,9 @@ Proof.
   2: { destruct (parse_error_new (utf8_encode s) (utf8_len s) i st c l) as [e |] eqn:E; simpl.
        - split; [apply Forall_rev; assumption |].
          assert (Hst : suffix st i) by (eapply suffix_trans; eauto).
-         destruct (parse_error_new_ok s pre0 i st c l e Hpre0 Hst E) as (A & B & C & D). eauto 10.
+         destruct (parse_error_new_ok s pre0 i st c l e Hpre0 Hst E) as (A & B & C & D).
+         pose proof (parse_error_new_one_line s pre0 i st c l e Hpre0 Hst E) as F.
+         exact (ex_intro _ pre0 (ex_intro _ i (conj Hpre0 (conj A (conj B (conj C (conj D F))))))).
        - split; [constructor | exact I]. }
   destruct He as [Hr' [Hlt Hsp]]. cbn [snd] in Hsp.
   cbn [abs_span fst snd].
@@ -262,9 +399,26 @@ Theorem parse_error_lines : forall s es e, parse_ledger s = LErr es e ->
     1 + count_nl (firstn (N.to_nat (pe_text_start e + fst (pe_span e))) (utf8_encode s)).
 Proof.
   intros s es e H. pose proof (parse_error_ok s) as A. rewrite H in A.
-  destruct A as (pre & rest & E & A1 & A2 & A3 & A4).
+  destruct A as (pre & rest & E & A1 & A2 & A3 & A4 & _).
   exists pre, rest. repeat (split; [assumption |]).
   rewrite A1, A2.
+  replace (utf8_encode s) with (utf8_encode (pre ++ rest)) by (rewrite <- E; reflexivity).
+  rewrite shown_line. lia.
+Qed.
+
+(* every byte of the error span - the one character a renderer underlines - is on the line of
+   the error offset, so the only line shown is the line where parsing stopped *)
+Theorem parse_error_one_line : forall s es e, parse_ledger s = LErr es e ->
+  exists pre rest, s = pre ++ rest /\
+    pe_text_start e = utf8_len pre /\
+    forall k, fst (pe_span e) <= k -> k < snd (pe_span e) ->
+      pe_line_start e + count_nl (firstn (N.to_nat k) (utf8_encode rest)) =
+      1 + count_nl (firstn (N.to_nat (pe_text_start e + fst (pe_span e))) (utf8_encode s)).
+Proof.
+  intros s es e H. pose proof (parse_error_ok s) as A. rewrite H in A.
+  destruct A as (pre & rest & E & A1 & A2 & A3 & A4 & A5).
+  exists pre, rest. split; [assumption |]. split; [assumption |].
+  intros k K1 K2. rewrite (A5 k K1 K2). rewrite A1, A2.
   replace (utf8_encode s) with (utf8_encode (pre ++ rest)) by (rewrite <- E; reflexivity).
   rewrite shown_line. lia.
 Qed.
